@@ -5,7 +5,7 @@ C17, JSON half — `json.ImpliedType` with its nesting limit (/repo 0c63e6a).
 `JsonVal.impliedType` (CtyModel/JsonVal.lean, written before the limit existed) plus the test
 `depth >= maxImpliedTypeDepth` in front of every array and object, with `depth+1` handed to
 `impliedObjectType` / `impliedTupleType` and from there to the members.  `max` is a parameter; the
-code's constant is `Generated.jsonMaxImpliedTypeDepth`.
+code's constant is `Generated.jsonImpliedTypeDepthLimit`.
 
 Core Lean only: the driver links this file.
 -/
